@@ -614,7 +614,9 @@ __goon:
 			return lexEscape
 
 		case utf8.RuneError:
-			l.errorf("invalid UTF-8 rune")
+			if l.width == 1 { // an undecodable byte; the character U+FFFD itself (3 bytes) is ordinary text
+				l.errorf("invalid UTF-8 rune")
+			}
 
 		case eof, '\n':
 			return l.errorf("unterminated quoted string within lexString")
